@@ -1076,3 +1076,58 @@ fn c01_queries_are_pure() {
     kani::cover!(k == 2, "chunked-reader");
     core::mem::forget(flow);
 }
+
+// =====================================================================================
+// C02 — Flow<SendRequest>::write once the head is complete
+// =====================================================================================
+
+//@ props: C02 C03 C01
+//@ tier: quick
+//@ unwind: 6
+//@ unwindset: c02_flow_write_after_head=10 write_all=3
+//@ timeout: 900
+//@ encodes: Flow::<SendRequest>::write (dispatch for body-carrying calls), Call::<WithBody>::write, Call::<WithoutBody>::write, BodyWriter::write
+//@ vars: holder WithBody (writer chunked | sized(any u64), not finished) or WithoutBody, head complete (phase SendBody); output buffer 8 symbolic bytes, out <= 8
+//@ bounds: out <= 8 bytes
+//@ outside: -
+//@ clause: once the head is complete, further calls of the head-writing function emit nothing and change nothing - in particular they neither emit the chunked terminator nor finish the body
+#[kani::proof]
+fn c02_flow_write_after_head() {
+    let with_body: bool = kani::any();
+    let chunked: bool = kani::any();
+    let writer = if !with_body {
+        bh::mk_writer_none()
+    } else if chunked {
+        bh::mk_writer_chunked(false)
+    } else {
+        bh::mk_writer_sized(kani::any(), false)
+    };
+    let holder = if with_body {
+        CallHolder::WithBody(ch::mk_call_in(2, 0, writer, None, true))
+    } else {
+        CallHolder::WithoutBody(ch::mk_call_in(2, 0, writer, None, true))
+    };
+    let mut flow: Flow<(), SendRequest> = mk_flow(mk_inner(holder, &no_reasons(), with_body, kani::any(), None, None));
+    let out0: [u8; 8] = kani::any();
+    let ol = any_le(8);
+    let mut out = out0;
+    let r = flow.write(&mut out[..ol]);
+    assert!(matches!(r, Ok(0)), "C02/complete-head-emits-nothing-more");
+    let after = match &flow.inner.call {
+        CallHolder::WithBody(c) => ch::writer_of(c),
+        CallHolder::WithoutBody(c) => ch::writer_of(c),
+        _ => bh::mk_writer_none(),
+    };
+    assert!(bh::writer_same(&after, &writer), "C02/complete-head-write-changes-nothing");
+    assert!(flow.can_proceed(), "C02/head-stays-complete");
+    let mut i = 0;
+    while i < 8 {
+        assert!(out[i] == out0[i], "C02/complete-head-emits-nothing-more");
+        i += 1;
+    }
+    kani::cover!(with_body && chunked && ol >= 5, "chunked-with-room-for-a-terminator");
+    kani::cover!(with_body && !chunked, "sized");
+    kani::cover!(!with_body, "without-body");
+    core::mem::forget(r);
+    core::mem::forget(flow);
+}
